@@ -171,7 +171,7 @@ type poolEntry struct {
 	Q       string
 	Ops     []string                 // operation names to use (besides the adversarial ones drawn separately)
 	Vars    []map[string]interface{} // variable assignments
-	Safe    bool                     // inside the class on which Normalize=true is expected to be transparent
+	Safe    bool                     // Normalize=true is compared with graphql.Do on this request (all, since the D-06 repairs)
 	Family  string
 	oversze bool
 }
@@ -232,9 +232,9 @@ func families() [][]poolEntry {
 			ev("vars", `query Q($x: Int, $s: String) { tag echo(i: $x, s: $s, b: true) }`, true, []string{"", "Q"}, V("x", 1), V("x", 5, "s", "q")),
 			ev("vars", `query Q($n: Int) { items(n: $n) { id tags(first: 1) } }`, true, []string{"Q"}, V("n", 0), V("n", 2), V("n", 9)),
 			ev("vars", `query Q($o: Pt) { echo(o: $o) }`, true, []string{"Q"}, nil, V("o", map[string]interface{}{"y": 2}), V("o", map[string]interface{}{"x": 1, "y": 2})),
-			ev("vars", `query Q($v: Boolean!) { tag @skip(if: $v) echo(i: 1) @include(if: $v) }`, false, []string{"Q"}, V("v", true), V("v", false), nil),
-			ev("vars", `query Q($x: Int = 1) { echo(i: $x) }`, false, []string{"Q"}, nil, V("x", 3)),
-			ev("vars", `query Q($x: Int = 2) { echo(i: $x) }`, false, []string{"Q"}, nil, V("x", 3)),
+			ev("vars", `query Q($v: Boolean!) { tag @skip(if: $v) echo(i: 1) @include(if: $v) }`, true, []string{"Q"}, V("v", true), V("v", false), nil),
+			ev("vars", `query Q($x: Int = 1) { echo(i: $x) }`, true, []string{"Q"}, nil, V("x", 3)),
+			ev("vars", `query Q($x: Int = 2) { echo(i: $x) }`, true, []string{"Q"}, nil, V("x", 3)),
 			ev("vars", `query Q($x: Int!) { echo(i: $x) }`, true, []string{"Q"}, nil, V("x", 3), V("x", "bad")),
 		},
 		{ // objects, lists, interface, union, fragments
@@ -255,16 +255,16 @@ func families() [][]poolEntry {
 			e("invalid", `{ echo(i: "str") }`, true), e("invalid", `{ echo(i: 1.5) }`, true), e("invalid", `{ item { id } item(id: 1) { id } }`, true),
 			e("invalid", "c", true), e("invalid", "b\x00c", true),
 		},
-		{ // outside the class on which Normalize=true is expected to work (known normaliser defects D-06b…e)
-			e("unsafe", `{ tag @skip(if: true) echo(i: 1) }`, false), e("unsafe", `{ tag echo(i: 1) @skip(if: true) }`, false),
-			e("unsafe", `{ tag @include(if: false) echo(i: 1) }`, false),
-			e("unsafe", `{ echo(e: GREEN) }`, false), e("unsafe", `{ echo(e: RED) }`, false),
-			e("unsafe", `{ echo(o: {y: 1}) }`, false), e("unsafe", `{ echo(o: {x: 1, y: 1}) }`, false),
-			e("unsafe", `{ echo(i: 3) echo(i: 3) }`, false), e("unsafe", `{ a: echo(i: 3) a: echo(i: 3) }`, false),
-			ev("unsafe", `query Q($__pcv0: Int) { echo(i: $__pcv0, s: "x") }`, false, []string{"Q"}, V("__pcv0", 5)),
-			e("unsafe", `{ node(id: 2) { ... on Item { name(prefix: "1,sep=s2") } } }`, false),
-			e("unsafe", `{ node(id: 2) { ... on Item { name(prefix: "1", sep: "2") } } }`, false),
-			e("unsafe", `{ ...F } fragment F on Query { echo(s: "lit") }`, false),
+		{ // shapes on which Normalize=true used to fail (D-06b…g, repaired): now part of the differential comparison
+			e("unsafe", `{ tag @skip(if: true) echo(i: 1) }`, true), e("unsafe", `{ tag echo(i: 1) @skip(if: true) }`, true),
+			e("unsafe", `{ tag @include(if: false) echo(i: 1) }`, true),
+			e("unsafe", `{ echo(e: GREEN) }`, true), e("unsafe", `{ echo(e: RED) }`, true),
+			e("unsafe", `{ echo(o: {y: 1}) }`, true), e("unsafe", `{ echo(o: {x: 1, y: 1}) }`, true),
+			e("unsafe", `{ echo(i: 3) echo(i: 3) }`, true), e("unsafe", `{ a: echo(i: 3) a: echo(i: 3) }`, true),
+			ev("unsafe", `query Q($__pcv0: Int) { echo(i: $__pcv0, s: "x") }`, true, []string{"Q"}, V("__pcv0", 5)),
+			e("unsafe", `{ node(id: 2) { ... on Item { name(prefix: "1,sep=s2") } } }`, true),
+			e("unsafe", `{ node(id: 2) { ... on Item { name(prefix: "1", sep: "2") } } }`, true),
+			e("unsafe", `{ ...F } fragment F on Query { echo(s: "lit") }`, true),
 		},
 	}
 }
